@@ -17,6 +17,7 @@ from ..protocol.constants import (
 from ..protocol.request import GeminiRequest
 from ..protocol.response import GeminiResponse
 from ..protocol.status import StatusCode
+from ..utils.url import canonical_path
 
 if TYPE_CHECKING:
     from ..protocol.request import TitanRequest
@@ -96,11 +97,16 @@ class StaticFileHandler(RequestHandler):
         Returns:
             A GeminiResponse with the file contents or an error.
         """
-        # Get the requested path (remove leading slash)
-        requested_path = request.path.lstrip("/")
+        # Get the requested path in canonical form (percent-decoded, without
+        # dot segments or repeated slashes) and remove the leading slash
+        requested_path = canonical_path(request.path).lstrip("/")
 
         # Construct the full file path
-        file_path = (self.document_root / requested_path).resolve()
+        try:
+            file_path = (self.document_root / requested_path).resolve()
+        except (OSError, RuntimeError, ValueError):
+            # Symlink loop, embedded NUL, over-long name: nothing to serve
+            return GeminiResponse(status=StatusCode.NOT_FOUND.value, meta="Not found")
 
         # Path traversal protection: ensure the resolved path is within document root
         if not self._is_safe_path(file_path):
@@ -113,6 +119,10 @@ class StaticFileHandler(RequestHandler):
             for index_name in self.default_indices:
                 index_path = file_path / index_name
                 if index_path.exists() and index_path.is_file():
+                    # The index may itself be a symlink: resolve and re-check
+                    index_path = index_path.resolve()
+                    if not self._is_safe_path(index_path):
+                        continue
                     file_path = index_path
                     index_found = True
                     break
